@@ -395,6 +395,7 @@ def run(chk):
     chk.trusted_base = ['clang 14 front end', '/verif/tools/celma-facts.cc', '/verif/cv/bounds.py + lin.py']
     chk.rule('O1', 'bounds obligations and class invariants (Engine C)', 20)
     chk.rule('O4', 'byte-stream fidelity: in-order, exactly-once delivery proved by content invariants', 60)
+    chk.rule('O5', 'read requests are refused exactly when they are larger than the buffer', 8)
     eng = make_engine(prog)
     targets = [f for f in prog.functions if (f.classq or '') in ('celma::common::ReadBuffer', 'celma::common::WriteBuffer')
                and f.short in ('get', 'append', 'flush', 'buffered')]     # fillBuffer is private: analysed inlined
@@ -416,8 +417,24 @@ def run(chk):
                                                       got, ln, '; '.join(s_.trail[-6:]))))
                 check_window(eng, s_, 'data', lin(0), ln, ghost(eng, s_, 'consumed'),
                              'the caller receives the next len bytes of the source, in order', 'at exit', None, f)
+            # requests are refused exactly when they are larger than the buffer: a request of up to N bytes is
+            # served (for every buffer state and chunking), a larger one ends in the exception
+            N = template_n(f)
+            for s_ in finals:
+                if s_.status == 'throw':
+                    held = N is not None and entails(s_.cons, ge(ln, N + 1))
+                    eng.obligations.append(Obligation(
+                        f.name, 'refuse', 'a read request is refused only if it is larger than the buffer', held,
+                        f.loc(), '' if held else 'an exception is reachable with len <= %s; path [%s]' % (
+                            N, '; '.join(s_.trail[-6:]))))
+                elif s_.status in ('normal', 'return'):
+                    held = N is not None and entails(s_.cons, le(ln, N))
+                    eng.obligations.append(Obligation(
+                        f.name, 'refuse', 'a read request larger than the buffer is refused', held, f.loc(),
+                        '' if held else 'a normal return is reachable with len > %s; path [%s]' % (
+                            N, '; '.join(s_.trail[-6:]))))
         for o in eng.obligations[before:]:
-            rule = 'O4' if o.kind == 'stream' else 'O1'
+            rule = 'O4' if o.kind == 'stream' else 'O5' if o.kind == 'refuse' else 'O1'
             chk.check(o.held, rule, f.name, '%s [%s]' % (o.what, tag), o.where, o.detail)
     if eng.unsupported:
         chk.notes.append('constructs evaluated as opaque: %s' % sorted(set(eng.unsupported))[:10])
